@@ -214,9 +214,14 @@ class Type2Tag(Tag):
                 offset += tlv_l + 1 + (1 if tlv_l < 255 else 3)
 
             self._capacity = get_capacity(raw_capacity, offset, skip_bytes)
-            if ndef is not None and len(ndef) > self._capacity:
-                log.debug("ndef message tlv extends beyond the data area")
-                return None
+            if ndef is not None:
+                # the tlv found may use the three byte length format
+                # for a value that fits the one byte format
+                tlv_head = 4 if tag_memory[offset+1] == 0xFF else 2
+                tlv_room = set(range(offset, raw_capacity + 16)) - skip_bytes
+                if len(ndef) > min(self._capacity, len(tlv_room) - tlv_head):
+                    log.debug("ndef message tlv extends beyond the data area")
+                    return None
             self._ndef_tlv_offset = offset
             self._tag_memory = tag_memory
             self._skip_bytes = skip_bytes
